@@ -30,6 +30,13 @@ def build_jobs(t: str, sd: int):
                 # from version 9 the scratch-slot optimiser runs by default: store/load placement programs against the reference
                 from ..recipe import gen_opt
                 fams += gen_opt.opt_family(mode, v, False)
+            if mode == "A" and (t != "quick" or v in (6, 10)):
+                # automatic variables next to explicitly numbered ones (ids at and around the positions the
+                # allocator reaches): every variable must keep its own value
+                from ..recipe import gen_slots
+                for n, ex in ((3, [1, 2]), (4, [3]), (6, [2, 3, 4]), (3, [0, 1]), (5, [1, 3]), (4, [0, 2, 3]), (2, [1]), (7, [5, 6])):
+                    for pl in ("main", "split"):
+                        fams.append(("slotsmix:n%d:e%s:%s" % (n, "-".join(map(str, ex)), pl), gen_slots.slot_program(mode, v, n, ex, pl)[0], {}))
             if nrand:
                 fams += gen.random_family(mode, v, sd, nrand)
             for (name, rec, opts) in fams:
@@ -89,7 +96,8 @@ def summarize(rep: Report, jobs, results, prop, level, rule, extra_cov=None, fea
             byid = byid_cache.setdefault("m", {j.get("id"): j for j in jobs})
             j = byid.get(r["id"], {})
             rep.violation({"kind": "unassemblable", "id": r["id"], "complaints": r["complaints"][:4], "teal": (r.get("teal") or "")[-2500:],
-                           "job": {k: v for k, v in j.items() if k not in ("rec", "recB")}, "recipe": j.get("rec"), "version": r.get("version")},
+                           "job": {k: v for k, v in j.items() if k not in ("rec", "recB")}, "recipe": j.get("rec"), "version": r.get("version"),
+                           "jobfn": r.get("_fn"), "fulljob": j},
                           ["unassemblable"])
             continue
         fam[r.get("family")] += 1
